@@ -34,16 +34,7 @@ func analysePipeline(w *World) *pipeline {
 	info := fi.Pkg.TypesInfo
 	p := &pipeline{fi: fi, info: info, flow: w.FlowOf(fi)}
 	// provider allocation node
-	for _, n := range p.flow.Nodes() {
-		inspectNoLit(n, func(m ast.Node) bool {
-			if cl, ok := m.(*ast.CompositeLit); ok {
-				if tv, ok := info.Types[cl]; ok && isNamedType(tv.Type, modPath, "provider") {
-					p.alloc = n
-				}
-			}
-			return true
-		})
-	}
+	p.alloc, _ = providerAllocNode(w, ro, p.flow)
 	// error variables of step calls
 	stepOf := map[types.Object]string{}
 	ast.Inspect(fi.Decl.Body, func(x ast.Node) bool {
@@ -110,6 +101,38 @@ func analysePipeline(w *World) *pipeline {
 	return p
 }
 
+// providerAllocNode finds, in the build function's CFG, the node that brings
+// the provider into existence (the literal, or the call to the private helper
+// that contains it) and the variable it is bound to.
+func providerAllocNode(w *World, ro *roles, fl *Flow) (ast.Node, types.Object) {
+	info := fl.Info
+	var node ast.Node
+	var obj types.Object
+	for _, n := range fl.Nodes() {
+		hit := false
+		inspectNoLit(n, func(m ast.Node) bool {
+			switch x := m.(type) {
+			case *ast.CompositeLit:
+				if tv, ok := info.Types[x]; ok && isNamedType(tv.Type, modPath, "provider") {
+					hit = true
+				}
+			case *ast.CallExpr:
+				if cal := callee(info, x); cal != nil && ro.allocProvider != nil && cal == ro.allocProvider.Obj && ro.allocProvider != ro.doBuild {
+					hit = true
+				}
+			}
+			return true
+		})
+		if hit {
+			node = n
+			if as, ok := n.(*ast.AssignStmt); ok && len(as.Lhs) >= 1 {
+				obj = objOf(info, as.Lhs[0])
+			}
+		}
+	}
+	return node, obj
+}
+
 // ruleGraphFill: R05.1 - every descriptor is added to the graph (only a nil
 // test of the element may skip one), then a checked DetectCycles, all before
 // the provider exists.
@@ -143,7 +166,7 @@ func ruleBuildPipeline(w *World, r *Report, rFill, rCycle, rLifetimes, rDeps, rS
 			// source: the descriptor list (field or a local copy of it)
 			srcOK := fieldOf(info, fill.X) == rg.all
 			if o := objOf(info, fill.X); o != nil {
-				if f, how := localOrigin(fi, o); f == rg.all && how == "copy" {
+				if f, how := localOrigin(w, fi, o); f == rg.all && how == "copy" {
 					srcOK = true
 				}
 			}
@@ -288,7 +311,13 @@ func ruleProviderOnlyFromBuild(w *World, r *Report, rule string) {
 			if cl, ok := x.(*ast.CompositeLit); ok {
 				if tv, ok := info.Types[cl]; ok && isNamedType(tv.Type, modPath, "provider") {
 					n++
-					r.Check(fi == ro.doBuild, rule, fmt.Sprintf("%s#provider-literal/%d", fi.Name(), n), cl.Pos(), false,
+					inBuild := false
+					for _, f := range w.Within(ro.doBuild, 3) {
+						if f == fi {
+							inBuild = true
+						}
+					}
+					r.Check(inBuild, rule, fmt.Sprintf("%s#provider-literal/%d", fi.Name(), n), cl.Pos(), false,
 						"providers are allocated only by the validated build", "a provider is allocated in "+fi.Name()+", bypassing the validation of Build")
 				}
 			}
@@ -633,18 +662,38 @@ func checkC07(w *World, r *Report) {
 			}
 			return true
 		})
-		// the exemption test must not be part of a wider disjunction
+		// the exemption test may only be joined, by ||, with nil tests of the descriptor
 		ast.Inspect(lc.body, func(x ast.Node) bool {
 			ifs, ok := x.(*ast.IfStmt)
-			if !ok || ifs.Pos() > lc.depLoop.Pos() {
+			if !ok || ifs.Pos() > lc.depLoop.Pos() || !strings.Contains(exprStr(ifs.Cond), ".Lifetime") {
 				return true
 			}
-			if strings.Contains(exprStr(ifs.Cond), ".Lifetime") {
-				if _, isBin := unparen(ifs.Cond).(*ast.BinaryExpr); isBin {
-					be := unparen(ifs.Cond).(*ast.BinaryExpr)
-					if be.Op == token.LOR || be.Op == token.LAND {
-						bad = "the dependent is exempted from the check on the condition " + exprStr(ifs.Cond) + " (only `Lifetime == Scoped` may exempt a dependent: transients must be checked too, or a singleton reaches scoped services through them)"
+			var disjuncts []ast.Expr
+			var split func(e ast.Expr)
+			split = func(e ast.Expr) {
+				if be, ok := unparen(e).(*ast.BinaryExpr); ok && be.Op == token.LOR {
+					split(be.X)
+					split(be.Y)
+					return
+				}
+				disjuncts = append(disjuncts, unparen(e))
+			}
+			split(ifs.Cond)
+			for _, d := range disjuncts {
+				be, ok := d.(*ast.BinaryExpr)
+				okD := false
+				if ok && be.Op == token.EQL {
+					if isNilIdent(info, be.Y) || isNilIdent(info, be.X) {
+						okD = true
 					}
+					if isFieldNamed(info, be.X, "Lifetime") {
+						if o := objOf(info, be.Y); o != nil && o.Name() == "Scoped" {
+							okD = true
+						}
+					}
+				}
+				if !okD {
+					bad = "the dependent is exempted from the check on the condition " + exprStr(ifs.Cond) + " (only `Lifetime == Scoped` may exempt a dependent: transients must be checked too, or a singleton reaches scoped services through them)"
 				}
 			}
 			return true
@@ -884,52 +933,57 @@ func viewNames(v map[*types.Var]bool) string {
 
 // ruleFamilyCopies: R-FAMILY (a).
 func ruleFamilyCopies(w *World, r *Report, rule string) {
-	fi := w.MustFn(w.Godi, "(*collection).addService")
-	r.Analysed(fi)
-	info := fi.Pkg.TypesInfo
-	// base descriptor variable: result of newDescriptor*
-	var base types.Object
-	ast.Inspect(fi.Decl.Body, func(x ast.Node) bool {
-		if as, ok := x.(*ast.AssignStmt); ok && len(as.Rhs) == 1 && len(as.Lhs) == 2 {
-			if c, ok := unparen(as.Rhs[0]).(*ast.CallExpr); ok {
-				if cal := callee(info, c); cal != nil && strings.HasPrefix(cal.Name(), "newDescriptor") {
-					base = objOf(info, as.Lhs[0])
+	add := w.MustFn(w.Godi, "(*collection).addService")
+	n := 0
+	for _, fi := range w.Within(add, 3) {
+		r.Analysed(fi)
+		info := fi.Pkg.TypesInfo
+		ast.Inspect(fi.Decl.Body, func(x ast.Node) bool {
+			cl, ok := x.(*ast.CompositeLit)
+			if !ok {
+				return true
+			}
+			tv, ok := info.Types[cl]
+			if !ok || !isNamedType(tv.Type, modPath, "Descriptor") {
+				return true
+			}
+			f := compositeFields(cl)
+			if _, derived := f["Constructor"]; !derived && len(f) < 4 {
+				return true
+			}
+			// only descriptors derived from another descriptor (family members)
+			var base types.Object
+			if v, ok := f["Constructor"]; ok {
+				if o := objOf(info, selBase(v)); o != nil && isNamedType(o.Type(), modPath, "Descriptor") {
+					base = o
 				}
 			}
-		}
-		return true
-	})
-	n := 0
-	ast.Inspect(fi.Decl.Body, func(x ast.Node) bool {
-		cl, ok := x.(*ast.CompositeLit)
-		if !ok {
-			return true
-		}
-		tv, ok := info.Types[cl]
-		if !ok || !isNamedType(tv.Type, modPath, "Descriptor") {
-			return true
-		}
-		n++
-		f := compositeFields(cl)
-		fam := "family"
-		if t, ok := f["Type"]; ok {
-			fam = exprStr(t)
-		}
-		con := fmt.Sprintf("%s#family-literal(Type:%s)", fi.Name(), fam)
-		var missing []string
-		for _, name := range []string{"Lifetime", "Constructor", "ConstructorType", "Dependencies"} {
-			v, ok := f[name]
-			if !ok || !isFieldNamed(info, v, name) || objOf(info, selBase(v)) != base {
-				missing = append(missing, name)
+			if base == nil {
+				if _, isNew := f["ConstructorType"]; isNew && fi.Obj.Name() != "addService" {
+					return true // the primary descriptor built from reflection data, not a family member
+				}
 			}
-		}
-		r.Check(len(missing) == 0, rule, con, cl.Pos(), false,
-			"the derived descriptor copies Lifetime, Constructor, ConstructorType and Dependencies from the base descriptor",
-			fmt.Sprintf("the derived descriptor does not copy %v from the base descriptor: a missing Lifetime defaults to Singleton, missing Dependencies hide the constructor's dependencies from lifetime and cycle validation", missing))
-		return true
-	})
+			n++
+			fam := "family"
+			if t, ok := f["Type"]; ok {
+				fam = exprStr(t)
+			}
+			con := fmt.Sprintf("%s#family-literal(Type:%s)", add.Name(), fam)
+			var missing []string
+			for _, name := range []string{"Lifetime", "Constructor", "ConstructorType", "Dependencies"} {
+				v, ok := f[name]
+				if !ok || !isFieldNamed(info, v, name) || base == nil || objOf(info, selBase(v)) != base {
+					missing = append(missing, name)
+				}
+			}
+			r.Check(len(missing) == 0, rule, con, cl.Pos(), false,
+				"the derived descriptor copies Lifetime, Constructor, ConstructorType and Dependencies from the base descriptor",
+				fmt.Sprintf("the derived descriptor does not copy %v from the base descriptor: a missing Lifetime defaults to Singleton, missing Dependencies hide the constructor's dependencies from lifetime and cycle validation", missing))
+			return true
+		})
+	}
 	if n < 3 {
-		r.Fail(rule, fi.Name()+"#family-literals", fi.Decl.Pos(), "expected the three derived-descriptor literals (result-object field, multiple return, As alias), found %d", n)
+		r.Fail(rule, add.Name()+"#family-literals", add.Decl.Pos(), "expected the three derived-descriptor literals (result-object field, multiple return, As alias), found %d", n)
 	}
 }
 
@@ -1169,7 +1223,15 @@ func checkC08(w *World, r *Report) {
 // ruleOptionalOnly: R04.5 - in BuildParamObject the only edge that continues
 // after a field-resolution error is guarded by the field's optional tag.
 func ruleOptionalOnly(w *World, r *Report, rule string) {
-	fi := w.MustFn(w.Refl, "(*ParamObjectBuilder).BuildParamObject")
+	top := w.MustFn(w.Refl, "(*ParamObjectBuilder).BuildParamObject")
+	fi := top
+	for _, f := range w.Within(top, 2) {
+		for _, c := range callsIn(f.Decl.Body, true) {
+			if cal := callee(f.Pkg.TypesInfo, c); cal != nil && cal.Name() == "resolveFieldDependency" {
+				fi = f
+			}
+		}
+	}
 	r.Analysed(fi)
 	info := fi.Pkg.TypesInfo
 	fl := w.FlowOf(fi)
@@ -1186,7 +1248,7 @@ func ruleOptionalOnly(w *World, r *Report, rule string) {
 		return true
 	})
 	if errObj == nil {
-		r.Fail(rule, fi.Name()+"#field-error", fi.Decl.Pos(), "BuildParamObject does not resolve its fields through resolveFieldDependency")
+		r.Fail(rule, top.Name()+"#field-error", fi.Decl.Pos(), "BuildParamObject does not resolve its fields through resolveFieldDependency")
 		return
 	}
 	sol := fl.Solve(Spec{Must: true, Edge: condEdge(w, info, 1)})
@@ -1211,7 +1273,7 @@ func ruleOptionalOnly(w *World, r *Report, rule string) {
 				}
 			}
 		case *ast.ReturnStmt:
-			if len(s.Results) == 2 && !isNilIdent(info, s.Results[1]) {
+			if len(s.Results) >= 1 && !isNilIdent(info, s.Results[len(s.Results)-1]) {
 				sawReturn = true
 			}
 		}
@@ -1219,5 +1281,5 @@ func ruleOptionalOnly(w *World, r *Report, rule string) {
 	if !sawReturn && bad == "" {
 		bad = "a failed resolution of a required field does not make BuildParamObject return the error"
 	}
-	r.Check(bad == "", rule, fi.Name()+"#optional-only", fi.Decl.Pos(), true, "only fields tagged optional survive a failed resolution; any other failure is returned", bad)
+	r.Check(bad == "", rule, top.Name()+"#optional-only", fi.Decl.Pos(), true, "only fields tagged optional survive a failed resolution; any other failure is returned", bad)
 }
